@@ -1,7 +1,7 @@
 (* The documented typing rules (C04's specification) and the well-formedness
    of contexts (C08's invariant), as boolean predicates. *)
 From Coq Require Import List ZArith NArith Bool.
-From WF Require Import Base.Bytes Sem.RangeSet Spec.C09 Lang.Types Lang.Ast Lang.Context.
+From WF Require Import Base.Bytes Sem.RangeSet Sem.Matchers Spec.C09 Lang.Types Lang.Ast Lang.Context.
 Import ListNotations.
 
 Definition is_prim (t : ty) : bool :=
@@ -33,7 +33,10 @@ Definition op_ok (t : ty) (op : cmpop) : bool :=
   match t, op with
   | TBool, CIsTrue => true
   | TInt, COrd _ (RInt _) | TInt, CBitAnd _ | TInt, COneOfInt _ => true
-  | TBytes, COrd _ (RBytes _) | TBytes, CContains _ | TBytes, COneOfBytes _ => true
+  | TBytes, COrd _ (RBytes _ _) | TBytes, CContains _ _ | TBytes, COneOfBytes _ => true
+  | TBytes, CMatches pat _ => match regex_compile pat with Some _ => true | None => false end
+  | TBytes, CWildcard _ pat _ =>
+      match wparse pat with Some t => negb (has_double_star t) | None => false end
   | TIp, COrd _ (RIp _) => true
   | TIp, COneOfIp l => forallb ip_item_wfb l
   | TInt, CInList li _ | TBytes, CInList li _ | TIp, CInList li _ =>
